@@ -170,4 +170,6 @@ def run(ck):
     if mm and not [v for v in ck.violations if not v["no_input"]]:
         ck.report("corr:T2-body", "the model of the code generator no longer matches the real expansion (%d inputs differ)" % len(mm),
                   dict(broken="correspondence T2 (expansion tokens)", theorems=["expandPat_subst", "C11_template_position_independent", "C11_elem_code", "C11_after_operations"], first=mm[:3]), no_input=True)
+    import parsetie
+    parsetie.light_tie(ck, "C11: the compiled programs' expectations read patterns with the model parser")
     ck.assumptions += ["acceptance is decided by rustc itself (the oracle); the model's reference-level calculus is validated against it cell by cell, not proved about rustc"]
